@@ -32,6 +32,12 @@ def build(desc):
         ls = [C.LINK_CLASSES[c % nlc](vs[a % nv], vs[b % nv], uid=1 + luid[k % len(luid)]) for k, (c, a, b) in enumerate(desc["edges"])]
     else:
         ls = [C.LINK_CLASSES[c % nlc](vs[a % nv], vs[b % nv]) for c, a, b in desc["edges"]]
+    la = desc.get("lattrs")
+    if la:
+        names = ["kind", "type", "id", "directed", "label", "weight", "name", "undirected"]
+        for k, l in enumerate(ls):
+            sel = la[k % len(la)]
+            setattr(l, names[sel % len(names)], ["road", None, 0, True, "directed", "undirected", 2.5, k][(sel // 3) % 8])
     for l, end, j in desc.get("reassign", ()):
         if ls:
             if end:
@@ -149,8 +155,9 @@ def eq_graph_descs(max_v=5, max_e=8):
 def graph_descs(max_v=8, max_e=14, classes=6, vcls=True, max_reassign=3, min_v=1, min_e=0, wide=False):
     cls = st.integers(0, classes - 1)
 
-    def mk(nv, edges, reassign, vc, luid=None, vuid=None):
+    def mk(nv, edges, reassign, vc, luid=None, vuid=None, lattrs=None):
         return {
+            **({"lattrs": lattrs} if lattrs else {}),
             **({"wide": True} if wide else {}),
             **({"luid": luid} if luid else {}),
             **({"vuid": vuid} if vuid else {}),
@@ -165,7 +172,8 @@ def graph_descs(max_v=8, max_e=14, classes=6, vcls=True, max_reassign=3, min_v=1
         st.integers(min_v, max_v),
         st.lists(st.tuples(cls, st.integers(0, max_v - 1), st.integers(0, max_v - 1)), min_size=min_e, max_size=max_e),
         st.lists(st.tuples(st.integers(0, max_e - 1), st.booleans(), st.integers(0, max_v - 1)), max_size=max_reassign),
-        (st.one_of(st.none(), st.lists(st.integers(0, 7 if wide else 3), min_size=1, max_size=4)) if vcls else st.none()),
+        (st.one_of(st.none(), st.lists(st.integers(0, 9 if wide else 3), min_size=1, max_size=4)) if vcls else st.none()),
         st.one_of(st.none(), st.none(), st.none(), st.lists(st.integers(0, 3), min_size=1, max_size=3)),
         st.one_of(st.none(), st.none(), st.none(), st.lists(st.integers(0, 3), min_size=1, max_size=3)),
+        st.one_of(st.none(), st.none(), st.lists(st.integers(0, 23), min_size=1, max_size=3)),
     )
